@@ -61,13 +61,15 @@ class UFuncTypeError(TypeError):
 def _kind_of_dtype(dt):
     if dt is None:
         return None
-    if dt in ('f', 'i', 'b'):
+    if dt in ('f', 'i', 'b', 'u'):
         return dt
     n = getattr(dt, '__name__', str(dt)).lower()
     if 'float' in n:
         return 'f'
     if 'bool' in n:
         return 'b'
+    if 'uint' in n or 'unsigned' in n:
+        return 'u'
     if 'int' in n:
         return 'i'
     raise TypeError("data type %r not understood" % (dt,))
@@ -101,6 +103,18 @@ def nonfinite_conditions(cell):
         ib, nb = nonfinite_conditions(b)
         return _simp(z3.If(cond, ia, ib)), _simp(z3.If(cond, na, nb))
     return z3.BoolVal(False), z3.BoolVal(False)
+
+
+def join_kinds(kinds):
+    """element kind of an array assembled from arrays of the given kinds (numpy's promotion: any float -> float;
+    uint64 together with int64 -> float64; uint64 > int64 > bool otherwise)"""
+    ks = set(kinds)
+    if 'f' in ks or {'u', 'i'} <= ks:
+        return 'f'
+    for k in ('u', 'i', 'b'):
+        if k in ks:
+            return k
+    return 'f'
 
 
 def _T():
@@ -227,12 +241,25 @@ class ndarray(object):
         ka = self.kind
         if ka == 'b':
             a = [z3.If(x, z3.RealVal(1), z3.RealVal(0)) for x in a]
-            ka = 'i'
+            ka = 'i' if kb != 'u' else 'u'
         if kb == 'b':
             b = [z3.If(x, z3.RealVal(1), z3.RealVal(0)) if z3.is_bool(x) else x for x in b]
-            kb = 'i'
+            kb = 'i' if ka != 'u' else 'u'
         kind = force or ('f' if 'f' in (ka, kb) else 'i')
+        if force is None and 'u' in (ka, kb) and 'f' not in (ka, kb):
+            # unsigned 64-bit operands (numpy 1.x): uint64 with uint64 -> uint64 (wraps below zero); with an int64 ARRAY
+            # -> float64; with an integer SCALAR by value: non-negative -> the array's type, negative -> float64
+            if ka == kb == 'u':
+                kind = 'u'
+            elif isinstance(other, ndarray):
+                kind = 'f'
+            elif ka == 'u':
+                kind = 'f' if symx.CTX.decide(b[0] < 0) else 'u'
+            else:
+                kind = 'i'          # int64 array with a uint64 scalar (value fits): int64
         vals = [fn(y, x) for x, y in zip(a, b)] if reverse else [fn(x, y) for x, y in zip(a, b)]
+        if kind == 'u':
+            vals = [symx.wrap_u64(v) for v in vals]
         if ROUNDING['on'] and kind == 'f':
             vals = [_rounded(v) for v in vals]
         return ndarray._new(vals, shape, kind)
@@ -255,7 +282,7 @@ class ndarray(object):
         if isinstance(o, MaskedArray): return NotImplemented
         return self._arith(o, operator.mul)
     def __rmul__(self, o): return self._arith(o, operator.mul, True)
-    def __neg__(self): return ndarray._new([-x for x in self.cells()], self.shape, self.kind)
+    def __neg__(self): return ndarray._new([(symx.wrap_u64(-x) if self.kind == 'u' else -x) for x in self.cells()], self.shape, self.kind)
 
     def __truediv__(self, o):
         if isinstance(o, MaskedArray): return NotImplemented
@@ -268,7 +295,7 @@ class ndarray(object):
         if isinstance(o, MaskedArray):
             o = o.data      # ndarray op= masked: numpy uses the raw data of the masked operand
         r = self._arith(o, fn, force='f' if name == 'divide' else None)
-        if r.kind == 'f' and self.kind in ('i', 'b'):
+        if r.kind == 'f' and self.kind in ('i', 'b', 'u'):
             raise UFuncTypeError("Cannot cast ufunc '%s' output from dtype('float64') to dtype('int64') with casting rule 'same_kind'" % name)
         if r.shape != self.shape:
             raise ValueError("non-broadcastable output operand with shape %s doesn't match the broadcast shape %s" % (self.shape, r.shape))
@@ -414,8 +441,9 @@ class ndarray(object):
 class _DType(object):
     def __init__(self, kind):
         self.kind = kind
-        self.char = {'f': 'd', 'i': 'l', 'b': '?'}[kind]
-        self.type = {'f': float64, 'i': int64, 'b': bool_}[kind]
+        self.char = {'f': 'd', 'i': 'l', 'b': '?', 'u': 'L'}[kind]
+        self.type = {'f': float64, 'i': int64, 'b': bool_, 'u': 'u'}[kind]
+        self.names = None
 
     def __eq__(self, o):
         try:
@@ -453,9 +481,12 @@ def _cast(v, frm, to):
         return v if frm == 'b' else v != 0
     if frm == 'b':
         return z3.If(v, z3.RealVal(1), z3.RealVal(0))
-    if to == 'i' and frm == 'f':
+    if to in ('i', 'u') and frm == 'f':
         t = z3.ToInt(v)
-        return z3.ToReal(z3.If(z3.And(v < 0, z3.ToReal(t) != v), t + 1, t))   # C truncation
+        r = z3.ToReal(z3.If(z3.And(v < 0, z3.ToReal(t) != v), t + 1, t))   # C truncation
+        return symx.wrap_u64(r) if to == 'u' else r
+    if to == 'u' and frm == 'i':
+        return symx.wrap_u64(v)
     return v
 
 
@@ -572,7 +603,7 @@ class MaskedArray(ndarray):
     def fill_value(self):
         if self._fill is not None:
             return self._fill
-        return {'f': 1e20, 'i': 999999, 'b': True}[self.kind]
+        return {'f': 1e20, 'i': 999999, 'b': True, 'u': 999999}[self.kind]
 
     def maskcells(self):
         return _maskcells(self._mask, self.size)
@@ -891,11 +922,12 @@ def array(obj, dtype=None, copy=True):
     if isinstance(obj, (list, tuple)):
         if obj and _b.all(isinstance(o, ndarray) for o in obj):
             parts = [o.data for o in obj]
-            kk = 'f' if _b.any(p.kind == 'f' for p in parts) else parts[0].kind
+            kk = join_kinds(p.kind for p in parts)
             cells = [_cast(v, p.kind, kk) for p in parts for v in p.cells()]
             return ndarray._new([_cast(v, kk, k) for v in cells], (len(parts),) + parts[0].shape, k or kk)
         terms = [_scalar_term(o) for o in obj]
-        kk = 'f' if _b.any(t[1] == 'f' for t in terms) else ('i' if _b.any(t[1] == 'i' for t in terms) else ('b' if terms else 'f'))
+        ks_ = set(t[1] for t in terms)
+        kk = 'f' if ('f' in ks_ or {'u', 'i'} <= ks_) else ('u' if 'u' in ks_ else ('i' if 'i' in ks_ else ('b' if terms else 'f')))
         return ndarray._new([_cast(_cast(t, tk, kk), kk, k) for t, tk in terms], (len(terms),), k or kk)
     t, tk = _scalar_term(obj)
     return ndarray._new([_cast(t, tk, k)], (), k or tk)
@@ -928,7 +960,7 @@ def vstack(arrs):
     for p in parts[1:]:
         if p.shape[1:] != parts[0].shape[1:]:
             raise ValueError("all the input array dimensions except for the concatenation axis must match exactly")
-    kk = 'f' if _b.any(p.kind == 'f' for p in parts) else parts[0].kind
+    kk = join_kinds(p.kind for p in parts)
     cells = [_cast(v, p.kind, kk) for p in parts for v in p.cells()]
     return ndarray._new(cells, (_b.sum(p.shape[0] for p in parts),) + parts[0].shape[1:], kk)
 
@@ -938,7 +970,7 @@ def stack(arrs, axis=0, out=None):
     for p in parts[1:]:
         if p.shape != parts[0].shape:
             raise ValueError("all input arrays must have the same shape")
-    kk = 'f' if _b.any(p.kind == 'f' for p in parts) else parts[0].kind
+    kk = join_kinds(p.kind for p in parts)
     cells, idxs, off = [], [], 0
     for p in parts:
         c = [_cast(v, p.kind, kk) for v in p.cells()]
@@ -995,7 +1027,7 @@ def where(cond, x=None, y=None):
     xs = x if isinstance(x, ndarray) else _full_like(cd, x)
     ys = y if isinstance(y, ndarray) else _full_like(cd, y)
     ci, xi, yi = _np.broadcast_arrays(cd.idx, xs.idx, ys.idx)
-    kk = 'f' if 'f' in (xs.kind, ys.kind) else xs.kind
+    kk = join_kinds((xs.kind, ys.kind))
     vals = [z3.If(cd.buf[c], _cast(xs.buf[a], xs.kind, kk), _cast(ys.buf[b], ys.kind, kk)) for c, a, b in zip(ci.ravel().tolist(), xi.ravel().tolist(), yi.ravel().tolist())]
     return ndarray._new(vals, ci.shape, kk)
 
@@ -1009,7 +1041,13 @@ def maximum(a, b):
 
 
 def issubdtype(a, b):
-    return _kind_of_dtype(a.kind if isinstance(a, _DType) else a) == _kind_of_dtype(b)
+    ka = _kind_of_dtype(a.kind if isinstance(a, _DType) else a)
+    name = getattr(b, '__name__', '')
+    if name == 'integer':                       # abstract numpy.integer: signed and unsigned
+        return ka in ('i', 'u')
+    if name == 'number':
+        return ka in ('i', 'u', 'f')
+    return ka == _kind_of_dtype(b)
 
 
 def isfinite(a):
